@@ -30,7 +30,7 @@ func init() {
 		ID:    "C05",
 		Level: "exploration",
 		Rule: "cases = seeded sequential histories (<=40 requests) of Set over all 15 content kinds with zero and extreme values and created/updated/expiry metadata, IncrementInt64, Uint32 push/delete, Delete on persistent swamps (write interval 0 or 1s), " +
-			"interleaved with idle evictions (clock advanced past close-after-idle) and graceful restarts; after every close the full GetAll snapshot is compared with the snapshot before and with the model; " +
+			"interleaved with idle evictions (clock advanced past close-after-idle), graceful restarts and requests issued at the very instant of the swamp's periodic flush (seeded preemption between the two); after every close the full GetAll snapshot is compared with the snapshot before and with the model; " +
 			"non-trivial = at least one close+reload with at least one record; distinct = hash of (request kinds, value kinds stored, close kinds, final state)",
 		Gen: func(seed uint64, tier string) Case { return genGW(seed, tier, "C05") },
 		Run: runGW,
@@ -73,15 +73,27 @@ func genGW(seed uint64, tier string, prop string) Case {
 		nsw = 3
 	}
 	key := func() int64 { return int64(r.intn(4)) }
+	forced, synced := int64(-1), false
 	for i := 0; i < nops; i++ {
 		sw := int64(r.intn(nsw))
 		var pick int
 		if prop == "C05" {
-			pick = r.pick(50, 6, 4, 8, 0, 0, 0, 0, 6, 5, 4, 0, 0, 0, 9, 6, 2, 10)
+			pick = r.pick(50, 6, 4, 8, 0, 0, 0, 0, 6, 5, 4, 0, 0, 0, 9, 6, 2, 10, 8)
 		} else {
-			pick = r.pick(26, 8, 5, 8, 4, 4, 4, 4, 7, 5, 4, 3, 3, 2, 5, 3, 5, 4)
+			pick = r.pick(26, 8, 5, 8, 4, 4, 4, 4, 7, 5, 4, 3, 3, 2, 5, 3, 5, 4, 3)
+		}
+		if forced >= 0 {
+			sw, forced = forced, -1
+			if pick >= 14 {
+				pick = 0
+			}
 		}
 		switch pick {
+		case 18:
+			// wait for the instant of the swamp's next periodic flush: the request after this one (same swamp)
+			// runs while the write ticker's flush is in progress
+			c.Ops = append(c.Ops, Op{K: "ticksync", A: []int64{sw}})
+			forced, synced = sw, true
 		case 17:
 			// a metadata-only PatchTreasures on a msgpack-bodied record (the body is rewritten with the value it has)
 			c.Ops = append(c.Ops, Op{K: "pmeta", A: []int64{sw, key(), int64(r.intn(6)), int64(1 + r.intn(3))}})
@@ -148,6 +160,9 @@ func genGW(seed uint64, tier string, prop string) Case {
 		}
 	}
 	c.Sched = &Sched{Seed: r.next()} // sequential client: no preemption, the clock drives the tickers
+	if synced && c.Cfg["write_interval"] > 0 {
+		c.Sched = genSched(r) // the request and the flush it coincides with interleave at seeded points
+	}
 	return c
 }
 
@@ -166,6 +181,7 @@ type gwRun struct {
 	families map[string]bool
 	closes   int
 	stored   map[string]bool
+	openedAt map[string]int64 // simulated instant of the first request since the swamp was last known closed: the phase of its write ticker
 }
 
 func (g *gwRun) start() {
@@ -215,7 +231,12 @@ func applySet(old *mrec, val *mrec, meta int64, tsSel int64, now int64) *mrec {
 
 func runGW(t *testing.T, c Case) (res Result) {
 	g := &gwRun{c: c, res: &res, disk: simdisk.New(), model: map[string]mswamp{}, touched: map[string]bool{}, families: map[string]bool{}, stored: map[string]bool{},
-		wi: c.cfg("write_interval", 1), idle: c.cfg("idle", 2)}
+		wi: c.cfg("write_interval", 1), idle: c.cfg("idle", 2), openedAt: map[string]int64{}}
+	g.disk.OnOp = func(seq int, kind int, p string) {
+		if kind == simdisk.OpWrite && g.wi > 0 && g.cl != nil && g.cl.inflight > 0 {
+			res.count("file_writes_of_a_periodic_flush_during_a_request", 1)
+		}
+	}
 	var v *Result
 	out := runSim(t, c.Sched, func() {
 		g.start()
@@ -318,6 +339,7 @@ func (g *gwRun) restart(i int) *Result {
 	g.closes++
 	delete(g.model, "verif/mem/gamma")
 	g.touched = map[string]bool{}
+	g.openedAt = map[string]int64{}
 	g.start()
 	return g.checkAll(i, "restart", false)
 }
@@ -329,11 +351,19 @@ func (g *gwRun) step(i int, op Op) *Result {
 	case "tick":
 		simrt.Sleep(time.Duration(op.A[0]) * time.Millisecond)
 		return nil
+	case "ticksync":
+		if t0, ok := g.openedAt[g.sw(op.A[0])]; ok && g.wi > 0 {
+			period := g.wi * int64(time.Second)
+			simrt.Sleep(time.Duration(period - (g.now()-t0)%period))
+			g.res.count("requests_issued_at_a_write_tick_instant", 1)
+		}
+		return nil
 	case "idle":
 		// no interaction for longer than close-after-idle (+ the 1s listener period): persistent swamps are evicted
 		simrt.Sleep(time.Duration(g.idle+3) * time.Second)
 		g.closes++
 		g.touched = map[string]bool{}
+		g.openedAt = map[string]int64{}
 		return g.checkAll(i, "idle_eviction", true)
 	case "restart":
 		return g.restart(i)
@@ -344,6 +374,14 @@ func (g *gwRun) step(i int, op Op) *Result {
 	if !exists {
 		g.touched[sw] = true
 	}
+	if _, ok := g.openedAt[sw]; !ok {
+		g.openedAt[sw] = g.now()
+	}
+	defer func() {
+		if len(g.model[sw]) == 0 {
+			delete(g.openedAt, sw) // destroyed (or never created): the next request summons a new instance
+		}
+	}()
 	ensure := func() mswamp {
 		if g.model[sw] == nil {
 			g.model[sw] = mswamp{}
